@@ -50,9 +50,8 @@ def check_forward(case):
 
 def check_inverse(case):
     cv = repo.mod("geodepy.convert")
-    T.grid_range_or_discard(case["east"], case["north"])
+    T.grid_predomain_or_discard(case)          # the domain is decided by the exact projection, not by the library's own answer
     lat, lon, psf, conv = T.call_grid2geo(cv, case, case["zone"], case["east"], case["north"], case["hemi"])
-    T.grid_domain_or_discard(case, lat, lon)
     cm = T.cm_of(case["prj"], case["zone"])
     e0, n0, k0, g0 = T.oracle_forward(lat, lon, cm, case)
     _cmp("inverse", psf, conv, k0, g0, {"lat": lat, "lon": lon, "cm": cm})
